@@ -45,11 +45,23 @@
       [sane_me_plat] / [validate_me_plat]: the verdicts fed from GetHFSTS6 (and MSR 13Ah) of
       the platform; [test_*]: the pkg/test entry points BootGuardSaneMEConfig /
       BootGuardValidateME.
+    - The LCP checks on a platform (Model/VerdictsLCP.v): [lcp_index po tpm pub data preset] is
+      PSIndexHasValidLCP ([po = false]) / POIndexHasValidLCP on a TPM of family [tpm] (1 = 1.2,
+      2 = 2.0) whose index has the NV public area [pub] ([NvAbsent]: not defined, [NvFail]:
+      unreadable, [NvBlob b]) and stores the bytes [data] ([None]: unreadable; a read beyond the
+      end of the index fails), with PreSet.LCPHash = [preset]; [parse_policy]: tools.ParsePolicy.
+      [version_word d]: the first two bytes of [d], little endian.  [lcp_bytes_spec preset d]:
+      [d] starts with a COMPLETE policy of one of the two versions showing the accepted pattern -
+      an LCP_POLICY (54 bytes, version word below 0x0204, fields as in [C05_LCP1_exact]) or an
+      LCP_POLICY2 (38 bytes + the digest of its HashAlg by the TCG size table, version word from
+      0x0300, [lcp2_spec]).  [index_window po tpm pub data d]: [d] is the content of the index as
+      its table entry sizes it - the first 54 bytes (TPM 1.2) / the first 38 + digest size of
+      the index' name algorithm bytes (TPM 2.0) of the stored bytes, all of them readable.
     Suffixes: [_partial] needs the extra hypothesis named in its comment; [_refuted] is a
     closed witness that the statement as written in the property fails on the code (listed in
     KNOWN_FINDINGS.json under the id given in the comment).  Theorems about "the former
     witness" of a repaired finding evaluate the model on the input that used to fail. *)
-From CSS Require Import Lib.Base Model.Verdicts Proofs.Verdicts Proofs.VerdictsPlatform.
+From CSS Require Import Lib.Base Model.Verdicts Model.VerdictsLCP Proofs.Verdicts Proofs.VerdictsPlatform Proofs.VerdictsLCP.
 Local Open Scope Z_scope.
 
 (** * 1. FIT range checks against exact interval arithmetic *)
@@ -366,6 +378,89 @@ Print Assumptions C05_LCP2_exact.
 Theorem C05_LCP2_list : lcp_valid2 11 768 11 0 8 8 = pass.
 Proof. exact LCP2_list_accepted. Qed.
 Print Assumptions C05_LCP2_list.
+
+(** ** The LCP checks on the BYTES of an index, on either TPM family *)
+
+(** tools.ParsePolicy decides the layout from the version word: an LCP_POLICY is only made of a
+    word up to 0x0204 (and 54 bytes), an LCP_POLICY2 only of a word from 0x0300 (and 38 bytes) *)
+Theorem C05_ParsePolicy_split : forall b,
+  match parse_policy b with
+  | L1 v _ _ _ _ _ _ => v = version_word b /\ v <= LCP_V2 /\ (54 <= length b)%nat
+  | L2 v _ _ _ _ => v = version_word b /\ LCP_V3 <= v /\ (38 <= length b)%nat
+  | LErr => True
+  end.
+Proof. exact ParsePolicy_split. Qed.
+Print Assumptions C05_ParsePolicy_split.
+
+(** ... and a word between the two families is a parse error *)
+Theorem C05_ParsePolicy_gap : forall b,
+  LCP_V2 < version_word b < LCP_V3 -> parse_policy b = LErr.
+Proof. exact ParsePolicy_gap. Qed.
+Print Assumptions C05_ParsePolicy_gap.
+
+(** PSIndexHasValidLCP / POIndexHasValidLCP never panic, whatever the platform presents *)
+Theorem C05_LCPIndex_total : forall po tpm pub data preset, lcp_index po tpm pub data preset <> VPanic.
+Proof. exact LCPIndex_total. Qed.
+Print Assumptions C05_LCPIndex_total.
+
+(** SOUND on every platform and for every preset: a pass means that the index could be read in
+    full and that its content starts with a complete policy of one of the two versions showing
+    the accepted pattern *)
+Theorem C05_LCPIndex_sound : forall po tpm pub data preset,
+  lcp_index po tpm pub data preset = pass ->
+  exists d, index_window po tpm pub data d /\ lcp_bytes_spec preset d.
+Proof. exact LCPIndex_sound. Qed.
+Print Assumptions C05_LCPIndex_sound.
+
+(** an index whose bytes begin with a version word of neither family (0x0204 .. 0x02ff) is never
+    reported as holding a valid policy: for either index, on every TPM family, every NV public
+    area, every preset, and whatever follows the version word *)
+Theorem C05_LCPIndex_undefined_version : forall po tpm pub full preset,
+  LCP_V2 <= version_word full < LCP_V3 ->
+  lcp_index po tpm pub (Some full) preset <> pass.
+Proof. exact LCPIndex_undefined_version. Qed.
+Print Assumptions C05_LCPIndex_undefined_version.
+
+(** EXACT wherever the index can be read: a pass iff the content shows the specified bytes;
+    otherwise the result is false (never true with an error).
+    PARTIAL: neither the preset LCP hash nor the name algorithm of the index is SM3-256
+    (finding C05-NVIndex-SM3-lib: go-tpm's Algorithm.Hash() does not know it). *)
+Theorem C05_LCPIndex_exact_partial : forall po tpm pub data preset d,
+  index_window po tpm pub data d -> preset <> 18 ->
+  (forall b alg attrs h ds, pub = NvBlob b -> parse_nvpub b = Some (alg, attrs, h, ds) -> alg <> 18) ->
+  (lcp_index po tpm pub data preset = pass <-> lcp_bytes_spec preset d) /\
+  (~ lcp_bytes_spec preset d -> exists e1 e2, lcp_index po tpm pub data preset = V false e1 e2).
+Proof. exact LCPIndex_exact_partial. Qed.
+Print Assumptions C05_LCPIndex_exact_partial.
+
+(** the hypotheses are satisfiable and correctly configured indices are accepted: an LCP_POLICY
+    in the PS and PO index of a TPM 1.2, a SHA256 LCP_POLICY2 in the PS and PO index (named by
+    SHA256) of a TPM 2.0, a SHA1 LCP_POLICY2 in an index named by SHA384 *)
+Theorem C05_LCPIndex_accepts :
+  lcp_index false 1 NvAbsent (Some (pol1_bytes 514)) 11 = pass /\
+  lcp_index true 1 (NvBlob [0]) (Some (pol1_bytes 514)) 11 = pass /\
+  lcp_index false 2 (pub20 11) (Some (pol2_bytes 768 11 32)) 11 = pass /\
+  lcp_index true 2 (pub20 11) (Some (pol2_bytes 768 11 32)) 11 = pass /\
+  lcp_index false 2 (pub20 12) (Some (pol2_bytes 772 4 20 ++ repeat 0 28)) 4 = pass /\
+  lcp_bytes_spec 11 (pol2_bytes 768 11 32) /\ lcp_bytes_spec 11 (pol1_bytes 514).
+Proof. exact LCPIndex_accepts. Qed.
+Print Assumptions C05_LCPIndex_accepts.
+
+(** the same LCP_POLICY2 under the version words 0x0205, 0x02ff and 0x0204 in a TPM 2.0 index *)
+Theorem C05_LCPIndex_gap_witness :
+  lcp_index false 2 (pub20 11) (Some (pol2_bytes 517 11 32)) 11 = fail /\
+  lcp_index true 2 (pub20 11) (Some (pol2_bytes 767 11 32)) 11 = ierr /\
+  lcp_index false 2 (pub20 11) (Some (pol2_bytes 516 11 32)) 11 = fail.
+Proof. exact LCPIndex_gap_witness. Qed.
+Print Assumptions C05_LCPIndex_gap_witness.
+
+(** finding C05-NVIndex-SM3-lib seen from the LCP checks: with SM3-256 as the preset LCP hash a
+    complete, well-formed SM3 LCP_POLICY2 in a readable index is refused *)
+Theorem C05_LCPIndex_sm3_refuted :
+  exists d, index_window false 2 (pub20 11) (Some d) d /\ lcp_bytes_spec 18 d /\
+    lcp_index false 2 (pub20 11) (Some d) 18 = fail.
+Proof. exact LCPIndex_sm3_refuted. Qed.
+Print Assumptions C05_LCPIndex_sm3_refuted.
 
 (** SINITACMcomplyTPMSpec as it is: decided by the SINIT ACM itself (former finding
     C05-sinitACM-double-parse), accepted iff its capabilities word is non-zero *)
